@@ -169,6 +169,26 @@ def oracle(n, values, matrix=None, exact=False):
 LIB_REJECTS: list = []
 
 
+def scale_oracle(n, values, matrix):
+    """`oracle` for games of extreme magnitude: the scale-free clauses as usual; the round trip relative to the game's own
+    magnitude (|back − orig| ≤ 1e-9·max|orig| + 4 sub-normal steps) instead of relative to max(1, max|orig|)."""
+    NZ, Coalition, ICG, is_sa, GCG = _mods()
+    bad = [b for b in oracle(n, values, matrix) if b[0] != "denormalize-does-not-restore"]
+    if bad and bad[0][0] == "out-of-scope":
+        return bad
+    orig = np.array([float(x) for x in values], dtype=float)
+    lim = TOL * float(np.max(np.abs(orig))) + 4 * 5e-324
+    for name, g in (("table", table_game(n, orig)), ("graph", GCG(np.array(matrix, dtype=float)))):
+        with warnings.catch_warnings():
+            warnings.simplefilter("ignore")
+            info = NZ.normalize_game(g)
+            NZ.denormalize_game(g, info)
+            back = np.array(g.get_values(), dtype=float)
+        if not (np.all(np.isfinite(back)) and np.all(np.abs(back - orig) <= lim)):
+            bad.append(("denormalize-does-not-restore", {"rep": name, "maxdiff": float(np.nanmax(np.abs(back - orig))), "allowed": lim}))
+    return bad
+
+
 def sa_witness(vals, n, tol):
     """first (a, b, excess) with a ∩ b = ∅ and v(a) + v(b) > v(a ∪ b) + tol, or None"""
     N = 2 ** n
@@ -708,6 +728,34 @@ def run(tier: str, budget: Budget, rnd, arg) -> StreamResult:
             report(res, n_big, vals, None, bad_big, f"large-n:{variant}")
             res.evaluations += 1
             res.count(f"large-n:{n_big}:{variant}")
+    # ---------------------------------------------------------------- scales (oracle on the real code only)
+    # the grand value NEAR a special constant (1 ± 2^-k, 1 + 3e-6: "already normalised?", 2^-k above 0) and at extreme
+    # magnitudes (sub-normal totals ~1e-310, 2^-1040, and 1e300): graph games in both representations and the same shapes as
+    # table games with non-zero singletons.  The clauses are scale-free (values in [0,1], grand 1, graph = table), so they are
+    # judged with the usual tolerance; only the round trip is judged relative to the game's own magnitude.
+    targets = [1 + 2.0 ** -18, 1 - 2.0 ** -20, 1 + 3e-6, 1 + 1e-12, 1 - 1e-7, 2.0 ** -30, 1e-310, 2.0 ** -1040, 3e-320, 1e-200, 1e300, 2.0 ** 600]
+    for ti, target in enumerate(targets if tier == "quick" else targets * 4):
+        if budget.left() < 6:
+            res.notes.append("scale cases skipped (budget)")
+            break
+        n_s = 3 + (ti % 3)
+        Mx = np.zeros((n_s, n_s))
+        for a in range(n_s):
+            for b in range(a + 1, n_s):
+                Mx[a, b] = rnd.choice([0, 1, 1, 2, 3, 5]) if rnd.random() < 0.8 else 0
+        if not Mx.any():
+            Mx[0, n_s - 1] = 1
+        Mx = Mx * (target / Mx.sum())                       # float scaling: the total is `target` up to rounding
+        gg0 = GCG(Mx.copy())
+        vals_g = [float(x) for x in gg0.get_values()]
+        tot = vals_g[-1]
+        if not (tot > 0 and np.isfinite(tot)):
+            continue
+        bad_s = scale_oracle(n_s, vals_g, Mx)
+        report(res, n_s, vals_g, Mx, bad_s, f"scale:{target!r}")
+        res.evaluations += 1
+        res.count("scale:graph+table")
+        res.nontrivial.add(("scale", ti, n_s))
     # small cancelling-singleton games (mixed-sign singleton values with sum exactly 0, not all zero)
     for _ in range(6 if tier == "quick" else 40):
         n_s = rnd.choice([3, 4, 5])
